@@ -61,7 +61,12 @@ Record state := { dir : fileset;                        (* the magefiles now on 
                   ver : string;                         (* what `go version` prints now *)
                   cache : list (string * program) }.    (* MAGEFILE_CACHE: name -> binary; first match wins *)
 
+(* what lies at the output path of `mage -compile <path>` before the invocation *)
+Inductive outfile := OAbsent | OOther (* some unrelated file *) | OOld (* the binary an earlier -compile left there *).
+
 Inductive op :=
+| CompileOut (o : outfile) (hashfast force gocache : bool)
+                                     (* mage [-f] -compile <path>, <path> holding o; the output path is not a cache entry *)
 | Edit (f b : string)                (* overwrite the contents of f *)
 | Add (f b : string)                 (* create f (overwrites when f exists) *)
 | Remove (f : string)
@@ -74,6 +79,8 @@ Inductive op :=
                                           the compiled program (RunCompiled), so [step] cannot depend on them. *)
 
 Inductive outcome :=
+| Built (p : program)                (* -compile: p was written to the output path, NOTHING was run *)
+| RanOutput                          (* -compile ran what lay at the output path (never, see invoke_compile) *)
 | NoRun                              (* the operation was not an invocation *)
 | NoFiles                            (* "No .go files marked with the mage build tag": exit 1, nothing run *)
 | Ran (compiled : bool) (p : program).
@@ -124,6 +131,26 @@ Definition invoke (st : state) (hashfast force gocache : bool) : state * outcome
       else build
   end.
 
+(* Invoke for `-compile <path>` (main.go:370-377, 398-414, 463-465): exePath is the output path
+   itself (ExeName is not called), Parse has set inv.Force = true (main.go:268: [parse_forces];
+   false is a tree whose Parse forgets it), the same useCache / stat / Force tests follow, then
+   generate + Compile to the path and `return 0` - the binary is not run. *)
+Definition invoke_compile_f (parse_forces : bool) (st : state) (o : outfile) (hashfast uforce gocache : bool) : outcome :=
+  match dir st with
+  | [] => NoFiles
+  | _ =>
+      let force := if parse_forces then true else uforce in
+      let build := Built (compile (ver st) (dep st) (dir st)) in
+      let useCache := if hashfast then false else gocache in
+      if negb useCache then
+        match o with
+        | OAbsent => build
+        | _ => if force then build else RanOutput          (* "Running existing exe" *)
+        end
+      else build
+  end.
+Definition invoke_compile : state -> outfile -> bool -> bool -> bool -> outcome := invoke_compile_f true.
+
 Definition with_dir (st : state) (d : fileset) : state := {| dir := d; dep := dep st; ver := ver st; cache := cache st |}.
 
 Definition step (st : state) (o : op) : state * outcome :=
@@ -135,6 +162,7 @@ Definition step (st : state) (o : op) : state * outcome :=
   | EditDep b => ({| dir := dir st; dep := b; ver := ver st; cache := cache st |}, NoRun)
   | SetVer v => ({| dir := dir st; dep := dep st; ver := v; cache := cache st |}, NoRun)
   | Run hf force gc => invoke st hf force gc
+  | CompileOut o hf force gc => (st, invoke_compile st o hf force gc)        (* directory and cache untouched *)
   end.
 
 (* the state after a history, and the outcomes along it *)
